@@ -1,6 +1,7 @@
 import HdVerif.Model.Json
 import HdVerif.Model.SRContentSeq
-open Lean HdVerif HdVerif.Drv HdVerif.SRContentSeq
+import HdVerif.Model.SRSeqPool
+open Lean HdVerif HdVerif.Drv HdVerif.SRContentSeq HdVerif.SRSeqPool
 
 /-- item = `[name, rel | null, isContainer, hasContent, uid, obj]` (obj = identity of the Python object) -/
 def itemOfJson (v : Json) : Except String Item := do
@@ -51,6 +52,12 @@ def opOfJson (j : Json) : Except String (Op × List Item) := do
   | "clear" => pure (.clear, [])
   | "into_find" => pure (.intoFind (← getNat j "n"), [])
   | "into_nodes" => pure (.intoNodes, [])
+  -- an argument that is not a content item (a plain Dataset); `xs` = the content items offered before it
+  | "append_other" => pure (.appendOther, [])
+  | "extend_other" => let xs ← itemsOfJson (← j.getObjVal? "xs"); pure (.extendOther xs, xs)
+  | "insert_other" => pure (.insertOther, [])
+  | "setitem_other" => pure (.setOther [], [])
+  | "setslice_other" => let xs ← itemsOfJson (← j.getObjVal? "xs"); pure (.setOther xs, xs)
   | _ => throw s!"unknown op {o}"
 
 def uidsJson (l : List Item) : Json := natsToJson (l.map (·.obj))
@@ -73,23 +80,26 @@ def observe (s : Seq) (names : Nat) (probes : List Item) : Json :=
     | .ok r => uidsJson r.items
     | .error e => Json.str ("err:" ++ e.toString)
   Json.mkObj [("list", uidsJson s.items), ("find", Json.arr finds.toArray), ("index", Json.arr idx.toArray),
-              ("in", Json.arr ins.toArray), ("nodes", nodes)]
+              ("in", Json.arr ins.toArray), ("nodes", nodes), ("flags", Json.arr #[Json.bool s.isRoot, Json.bool s.isSr])]
 
 def addProbes (probes : List Item) (xs : List Item) : List Item :=
   xs.foldl (fun acc x => if acc.any (·.obj == x.obj) then acc else acc ++ [x]) probes
 
 /-- pool-level operation: "clone" / "attach" / anything else on member "seq" (default 0) -/
-def poolOpOfJson (j : Json) : Except String (PoolOp × List Item) := do
+def poolOpOfJson (j : Json) : Except String (APoolOp × List Item) := do
   let o ← getStr j "op"
   let i := match j.getObjVal? "seq" with
     | .ok v => (v.getNat?.toOption).getD 0
     | .error _ => 0
   match o with
-  | "clone" => pure (.clone i, [])
-  | "attach" => pure (.attach i, [])
+  | "clone" => pure (.base (.clone i), [])
+  | "attach" => pure (.base (.attach i), [])
+  | "copy" => pure (.copy i, [])               -- copy.copy
+  | "deepcopy" => pure (.deepcopy i, [])       -- copy.deepcopy
+  | "pickle" => pure (.deepcopy i, [])         -- pickle.loads(pickle.dumps(..))
   | _ => do
     let (op, items) ← opOfJson j
-    pure (.on i op, items)
+    pure (.base (.on i op), items)
 
 def observePool (pool : List Seq) (names : Nat) (probes : List Item) : Json :=
   Json.arr (pool.map (fun s => observe s names probes)).toArray
@@ -110,11 +120,11 @@ def history (j : Json) : Except String Json := do
   | .error e => pure (okJson (Json.arr #[Json.mkObj [("err", Json.str e.toString), ("obs", Json.null)]]))
   | .ok s0 =>
     let first := Json.mkObj [("err", Json.null), ("obs", observePool [s0] names probes)]
-    let (_, _, out) := ops.foldl (fun (acc : List Seq × List Item × Array Json) (opx : PoolOp × List Item) =>
+    let (_, _, out) := ops.foldl (fun (acc : APool × List Item × Array Json) (opx : APoolOp × List Item) =>
       let (pool, pr, out) := acc
       let pr' := addProbes pr opx.2
-      let (pool', e) := poolStep pool opx.1
-      (pool', pr', out.push (Json.mkObj [("err", errJson e), ("obs", observePool pool' names pr')]))) ([s0], probes, #[first])
+      let (pool', e) := apoolStep pool opx.1
+      (pool', pr', out.push (Json.mkObj [("err", errJson e), ("obs", observePool (view pool') names pr')]))) (start s0, probes, #[first])
     pure (okJson (Json.arr out))
 
 /-- slice resolution alone: positions in slice order, for the exhaustive comparison with CPython -/
